@@ -83,15 +83,20 @@ def isEqualExpr (a b : E) : Bool :=
   | var x, var y => x == y
   | _, _ => false
 
-/-- `finalExpr` -/
-def finalExpr (i : E) : E :=
-  let i := i.inner
-  let i := match i with
-    | comma l => (l.getLast?).getD i
-    | e => e
+/-- `finalExpr`, the step through a comma list -/
+def finalMid (i : E) : E :=
+  match i with
+  | comma l => (l.getLast?).getD i
+  | e => e
+
+/-- `finalExpr`, the step through an assignment -/
+def finalCore (i : E) : E :=
   match i with
   | bin .assign x _ => x
   | e => e
+
+/-- `finalExpr` -/
+def finalExpr (i : E) : E := finalCore (finalMid i.inner)
 
 /-- `isTrue` -/
 def isTrue (i : E) : Bool :=
@@ -119,32 +124,46 @@ def isNullLit (i : E) : Bool :=
   | lit l => l == .null
   | _ => false
 
+def varName? : E → Option String
+  | var n => some n
+  | _ => none
+
+/-- the second alternative of the test below: the variable is the right operand -/
+def nullCmpVarR (x y : E) : Option String :=
+  match varName? y with
+  | some w => if isUndefinedOrNull x then some w else none
+  | none => none
+
 /-- one side of `a==null`: the variable compared with `null`/`undefined` -/
 def nullCmpVar (x y : E) : Option String :=
-  match x with
-  | var v => if isUndefinedOrNull y then some v else
-    (match y with | var w => if isUndefinedOrNull x then some w else none | _ => none)
-  | _ => match y with | var w => if isUndefinedOrNull x then some w else none | _ => none
+  match varName? x with
+  | some v => if isUndefinedOrNull y then some v else nullCmpVarR x y
+  | none => nullCmpVarR x y
+
+/-- the comparison operators accepted on the two sides of `||` (`isAnd = false`) resp. `&&` -/
+def okNullOp (isAnd : Bool) (o : BOp) : Bool :=
+  if isAnd then o == .ne || o == .sne else o == .eq || o == .seq
+
+def isStrictEqOp (o : BOp) : Bool := o == .seq || o == .sne
+
+/-- `a===null||a===undefined`: both comparisons test the same variable; with two strict comparisons both `null` and
+    `undefined` must be tested -/
+def nullPair (isAnd : Bool) (lop : BOp) (lx ly : E) (rop : BOp) (rx ry : E) : Option (String × Bool) :=
+  if okNullOp isAnd lop && okNullOp isAnd rop then
+    match nullCmpVar lx ly, nullCmpVar rx ry with
+    | some v, some w =>
+      if v == w && (!(isStrictEqOp lop && isStrictEqOp rop)
+          || (isNullLit lx || isNullLit ly) != (isNullLit rx || isNullLit ry)) then some (v, isAnd) else none
+    | _, _ => none
+  else none
 
 /-- `isUndefinedOrNullVar`: `some (v, not)` -/
 def isUndefinedOrNullVar (i : E) : Option (String × Bool) :=
   match i.inner with
   | bin op x y =>
     if op == .lor || op == .land then
-      let isAnd := op == .land
-      let okOp : BOp → Bool := fun o => if isAnd then o == .ne || o == .sne else o == .eq || o == .seq
       match x.inner, y.inner with
-      | bin lop lx ly, bin rop rx ry =>
-        if okOp lop && okOp rop then
-          match nullCmpVar lx ly, nullCmpVar rx ry with
-          | some v, some w =>
-            -- with two strict comparisons both `null` and `undefined` must be tested
-            let bothStrict := (lop == .seq || lop == .sne) && (rop == .seq || rop == .sne)
-            let leftNull := isNullLit lx || isNullLit ly
-            let rightNull := isNullLit rx || isNullLit ry
-            if v == w && (!bothStrict || leftNull != rightNull) then some (v, isAnd) else none
-          | _, _ => none
-        else none
+      | bin lop lx ly, bin rop rx ry => nullPair (op == .land) lop lx ly rop rx ry
       | _, _ => none
     else if op == .eq || op == .ne then
       (nullCmpVar x y).map (fun v => (v, op == .ne))
@@ -177,27 +196,45 @@ def toNullish (c x y : E) : Nullish :=
     else .no
   | none => .no
 
-/-- the De Morgan branch of `optimizeUnaryExpr` for `!(x op y)`, `op ∈ {&&, ||}`; `none` = not rewritten -/
-def deMorgan (bop : BOp) (x y : E) (p : Prec) : Option E :=
-  let op : BOp := if bop == .land then .lor else .land
+/-- `x` is directly an (in)equality comparison -/
+def isEqOperand : E → Bool
+  | bin o _ _ => o.prec == opEquals
+  | _ => false
+
+/-- the negated operand of the De Morgan rewrite: the comparison is inverted, anything else gets a `!` -/
+def negOperand (x : E) (needsGroup : Bool) : E :=
+  if isEqOperand x then (match x with | bin o a b => bin (invertOp o) a b | e => e)
+  else unary .not (if needsGroup then group x else x)
+
+/-- the new operator of `!(x op y)` -/
+def dualOp (bop : BOp) : BOp := if bop == .land then .lor else .land
+
+/-- savings of the De Morgan rewrite (the rewrite is done iff positive) -/
+def deMorganScore (bop : BOp) (x y : E) (p : Prec) : Int :=
+  let op := dualOp bop
   let precInside := op.prec
   let needsGroup := precInside < p && (precInside != opCoalesce || p != opBitOr)
   let score : Int := 3 - (if needsGroup then 2 else 0) - 2
-  let isEqX := match x with | bin o _ _ => o.prec == opEquals | _ => false
-  let isEqY := match y with | bin o _ _ => o.prec == opEquals | _ => false
-  let score := score + (if isEqX then 1 else 0) + (if isEqY then 1 else 0)
-  let needsGroupX := !isEqX && bop.left ≤ x.prec && x.prec < opUnary
-  let needsGroupY := !isEqY && bop.right ≤ y.prec && y.prec < opUnary
+  let score := score + (if isEqOperand x then 1 else 0) + (if isEqOperand y then 1 else 0)
+  let needsGroupX := !isEqOperand x && bop.left ≤ x.prec && x.prec < opUnary
+  let needsGroupY := !isEqOperand y && bop.right ≤ y.prec && y.prec < opUnary
   let score := score - (if needsGroupX then 2 else 0) - (if needsGroupY then 2 else 0)
-  let score := if op == .lor then
-      score + (if x.prec == opOr then 2 else 0) + (if y.prec == opAnd then 2 else 0) else score
-  if 0 < score then
-    let inv : E → E := fun e => match e with | bin o a b => bin (invertOp o) a b | e => e
-    let x1 := if isEqX then inv x else unary .not (if needsGroupX then group x else x)
-    let y1 := if isEqY then inv y else unary .not (if needsGroupY then group y else y)
-    let r := bin op x1 y1
-    some (if needsGroup then group r else r)
-  else none
+  if op == .lor then
+    score + (if x.prec == opOr then 2 else 0) + (if y.prec == opAnd then 2 else 0)
+  else score
+
+/-- the rewritten expression: `!(x&&y) → !x||!y`, `!(a==0||b) → a!=0&&!b` -/
+def deMorganBuild (bop : BOp) (x y : E) (p : Prec) : E :=
+  let op := dualOp bop
+  let needsGroup := op.prec < p && (op.prec != opCoalesce || p != opBitOr)
+  let needsGroupX := !isEqOperand x && bop.left ≤ x.prec && x.prec < opUnary
+  let needsGroupY := !isEqOperand y && bop.right ≤ y.prec && y.prec < opUnary
+  let r := bin op (negOperand x needsGroupX) (negOperand y needsGroupY)
+  if needsGroup then group r else r
+
+/-- the De Morgan branch of `optimizeUnaryExpr` for `!(x op y)`, `op ∈ {&&, ||}`; `none` = not rewritten -/
+def deMorgan (bop : BOp) (x y : E) (p : Prec) : Option E :=
+  if 0 < deMorganScore bop x y p then some (deMorganBuild bop x y p) else none
 
 /-- strip `!` (toggling `invert`) and groups: the loop at the start of `optimizeUnaryExpr` -/
 def stripNots : E → Bool → E × Bool
@@ -205,24 +242,25 @@ def stripNots : E → Bool → E × Bool
   | group x, inv => stripNots x inv
   | e, inv => (e, inv)
 
+/-- `optimizeUnaryExpr` after the stripping loop: `e2` is the operand under the `!`s and groups, `invert` the parity,
+    `orig` the unchanged expression -/
+def optNotCore (e2 : E) (invert : Bool) (p : Prec) (orig : E) : E :=
+  if !invert && isBooleanExpr e2 then groupExpr e2 p
+  else match e2 with
+    | bin bop a b =>
+      if invert then
+        if bop.prec == opEquals then groupExpr (bin (invertOp bop) a b) p
+        else if bop == .land || bop == .lor then
+          match deMorgan bop a b p with
+          | some r => r
+          | none => orig
+        else orig
+      else orig
+    | _ => orig
+
 /-- `optimizeUnaryExpr(&UnaryExpr{op, x}, prec)` -/
 def optUnary (op : UOp) (x : E) (p : Prec) : E :=
-  if op == .not then
-    let r := stripNots x true
-    let e2 := r.1
-    let invert := r.2
-    if !invert && isBooleanExpr e2 then groupExpr e2 p
-    else match e2 with
-      | bin bop a b =>
-        if invert then
-          if bop.prec == opEquals then groupExpr (bin (invertOp bop) a b) p
-          else if bop == .land || bop == .lor then
-            match deMorgan bop a b p with
-            | some r => r
-            | none => unary op x
-          else unary op x
-        else unary op x
-      | _ => unary op x
+  if op == .not then optNotCore (stripNots x true).1 (stripNots x true).2 p (unary op x)
   else unary op x
 
 /-- `optimizeBooleanExpr(expr, invert, prec)` -/
@@ -245,66 +283,78 @@ def condNormalize (c x y : E) : E × E × E :=
 
 def lastD (l : List E) (d : E) : E := (l.getLast?).getD d
 
-/-- `optimizeCondExpr(&CondExpr{c, x, y}, prec)`; `ver2020 = m.o.minVersion(2020)`; `none` = outside the fragment -/
-def optCond (ver2020 : Bool) (c0 x0 y0 : E) (p : Prec) : Option E :=
-  let n := condNormalize c0 x0 y0
-  let c := n.1
-  let x := n.2.1
-  let y := n.2.2
-  let finalCond := finalExpr c
+/-- guard of `c?x:y → c||y`: the final value of the condition is the variable `x` -/
+def orSelfGuard (c x y : E) : Bool :=
+  isEqualExpr (finalExpr c) x && ((finalExpr c).prec < opAssign || BOp.lor.left ≤ (finalExpr c).prec)
+    && (y.prec < opAssign || BOp.lor.right ≤ y.prec)
+
+/-- guard of `c?x:y → c&&x`: the final value of the condition is the variable `y` -/
+def andSelfGuard (c x y : E) : Bool :=
+  isEqualExpr (finalExpr c) y && ((finalExpr c).prec < opAssign || BOp.land.left ≤ (finalExpr c).prec)
+    && (x.prec < opAssign || BOp.land.right ≤ x.prec)
+
+/-- `c?f(a):f(b) → f(c?a:b)` -/
+def callMerge (c x y : E) : Option E :=
+  match x, y with
+  | call fx [ax], call fy [ay] => if isEqualExpr fx fy then some (call fx [E.cond c ax ay]) else none
+  | _, _ => none
+
+/-- `a?(b?x:y):y → a&&b?x:y` -/
+def nestedCond (c x y : E) : Option E :=
+  match x with
+  | .cond c2 x2 y2 =>
+    if isEqualExpr y y2 then
+      some (E.cond (bin .land (groupExpr c BOp.land.left) (groupExpr c2 BOp.land.right)) x2 y)
+    else none
+  | _ => none
+
+/-- `(a,b)?c:d → a,b?c:d` at statement level -/
+def commaCond (c x y : E) (p : Prec) : E :=
+  if p ≤ opExpr then
+    match c with
+    | group (comma l) =>
+      if opCoalesce ≤ (lastD l c).prec then comma (l.dropLast ++ [E.cond (lastD l c) x y])
+      else E.cond c x y
+    | _ => E.cond c x y
+  else E.cond c x y
+
+/-- the last part of `optimizeCondExpr`: boolean bodies, nested conditionals, comma conditions -/
+def optCondTail (c x y : E) (p : Prec) : E :=
+  let trueX := isTrue x
+  let falseX := isFalse x
+  let trueY := isTrue y
+  let falseY := isFalse y
+  if trueX && falseY || falseX && trueY then optBool c falseX p
+  else if trueX || trueY then
+    bin .lor (optBool c trueY BOp.lor.left) (groupExpr (if trueY then x else y) BOp.lor.right)
+  else if falseX || falseY then
+    bin .land (optBool c falseX BOp.land.left) (groupExpr (if falseX then y else x) BOp.land.right)
+  else
+    match nestedCond c x y with
+    | some e => e
+    | none => commaCond c x y p
+
+/-- `optimizeCondExpr` after the normalisation of the condition -/
+def optCondN (ver2020 : Bool) (c x y : E) (p : Prec) : Option E :=
   match isTruthy c with
   | some true => some x
   | some false => some y
   | none =>
-    if isEqualExpr finalCond x && (finalCond.prec < opAssign || BOp.lor.left ≤ finalCond.prec)
-        && (y.prec < opAssign || BOp.lor.right ≤ y.prec) then
-      some (bin .lor (groupExpr c BOp.lor.left) y)
-    else if isEqualExpr finalCond y && (finalCond.prec < opAssign || BOp.land.left ≤ finalCond.prec)
-        && (x.prec < opAssign || BOp.land.right ≤ x.prec) then
-      some (bin .land (groupExpr c BOp.land.left) x)
-    else if isEqualExpr x y then
-      some (groupExpr (comma [c, x]) p)
+    if orSelfGuard c x y then some (bin .lor (groupExpr c BOp.lor.left) y)
+    else if andSelfGuard c x y then some (bin .land (groupExpr c BOp.land.left) x)
+    else if isEqualExpr x y then some (groupExpr (comma [c, x]) p)
     else
-      let nl := if ver2020 then toNullish c x y else .no
-      match nl with
+      match (if ver2020 then toNullish c x y else .no) with
       | .unmodelled => none
       | .yes e => some e
       | .no =>
-        let callMerge : Option E := match x, y with
-          | call fx [ax], call fy [ay] => if isEqualExpr fx fy then some (call fx [E.cond c ax ay]) else none
-          | _, _ => none
-        match callMerge with
+        match callMerge c x y with
         | some e => some e
-        | none =>
-          let trueX := isTrue x
-          let falseX := isFalse x
-          let trueY := isTrue y
-          let falseY := isFalse y
-          if trueX && falseY || falseX && trueY then some (optBool c falseX p)
-          else if trueX || trueY then
-            let c1 := optBool c trueY BOp.lor.left
-            some (bin .lor c1 (groupExpr (if trueY then x else y) BOp.lor.right))
-          else if falseX || falseY then
-            let c1 := optBool c falseX BOp.land.left
-            some (bin .land c1 (groupExpr (if falseX then y else x) BOp.land.right))
-          else
-            let nested : Option E := match x with
-              | .cond c2 x2 y2 =>
-                if isEqualExpr y y2 then
-                  some (E.cond (bin .land (groupExpr c BOp.land.left) (groupExpr c2 BOp.land.right)) x2 y)
-                else none
-              | _ => none
-            match nested with
-            | some e => some e
-            | none =>
-              if p ≤ opExpr then
-                match c with
-                | group (comma l) =>
-                  if opCoalesce ≤ (lastD l c).prec then
-                    some (comma (l.dropLast ++ [E.cond (lastD l c) x y]))
-                  else some (E.cond c x y)
-                | _ => some (E.cond c x y)
-              else some (E.cond c x y)
+        | none => some (optCondTail c x y p)
+
+/-- `optimizeCondExpr(&CondExpr{c, x, y}, prec)`; `ver2020 = m.o.minVersion(2020)`; `none` = outside the fragment -/
+def optCond (ver2020 : Bool) (c0 x0 y0 : E) (p : Prec) : Option E :=
+  optCondN ver2020 (condNormalize c0 x0 y0).1 (condNormalize c0 x0 y0).2.1 (condNormalize c0 x0 y0).2.2 p
 
 /-- `condExpr(cond, x, y)` of util.go (used by the statement rewrites) -/
 def condExprU (c x y : E) : E :=
